@@ -5,6 +5,7 @@ import (
 	"fmt"
 	"hash/fnv"
 	"math/rand"
+	"os"
 	"runtime"
 	"sort"
 	"strconv"
@@ -755,6 +756,10 @@ func (s *Sim) Drive(o DriveOpts) DriveResult {
 		if len(acts) == 0 {
 			if idle >= idleCap {
 				s.Event("stuck: nothing enabled after %s of idle time", idle)
+				if os.Getenv("VERIF_STACKS") != "" {
+					buf := make([]byte, 1<<20)
+					os.Stderr.Write(buf[:runtime.Stack(buf, true)])
+				}
 				return Stuck
 			}
 			var d time.Duration
